@@ -115,6 +115,8 @@ def run(case, world, caching, times=1, flattened=False):
     from entity_query_language.cache_data import enable_caching, disable_caching
     m = H.labels_of(world)
     ps, qs = world["P"], world["Q"]
+    if case["pos"] == "operand_value_eq":
+        _copies(world)      # concrete copies: they have to be constructed OUTSIDE the symbolic block below
     (enable_caching if caching else disable_caching)()
     try:
         with symbolic_mode():
